@@ -211,14 +211,27 @@ fn check_text(t: &mut Tally, text: &str) {
         }
     }
     if !line_fault {
+        // built twice: list variables set as a whole, and pushed line by line
         let r = guard(|| {
             let mut s = Summary::new();
+            let mut p = Summary::new();
             for (i, v) in &values {
                 summary_set(&mut s, *i, v);
+                match v {
+                    Val::A(lines) => {
+                        for l in lines {
+                            mc_drivers::summary_push(&mut p, *i, l);
+                        }
+                    }
+                    other => summary_set(&mut p, *i, other),
+                }
             }
-            s.is_completed()
+            (s.is_completed(), p.is_completed())
         });
         let complete = ms::is_complete(&values);
+        // an empty list variable cannot be produced by pushes: the pushed copy then lacks it
+        let pushable = values.values().all(|v| !matches!(v, Val::A(a) if a.is_empty()));
+        let r = r.map(|(a, b)| if a == complete && (b == complete || !pushable) { complete } else { !complete });
         if r != Ok(complete) {
             t.violation(Violation::new("text", case(), json!({"is_completed": complete}), json!(format!("{:?}", r)), "is_completed() of the same values built through the API disagrees with 'all eleven required variables are set'"));
         }
